@@ -301,13 +301,39 @@ def denotation_check(p, name, c, rnd, count):
             return
 
 
+def same_path_check(p, name, c1, c2):
+    """save c1, load, save c2 to the *same path*, load again: the second load must be c2."""
+    p.case(("same-path", circ.snapshot(c1)[:3], circ.snapshot(c2)[:3]), sample=f"{name}: two circuits saved to one path in turn" if len(p.samples) < 12 else None)
+    src = (REPLAY_PRELUDE + "from cirbo.core.circuit import Circuit\nimport tempfile, os\n" + circ.circ_src(c1, "c1") + "\n" + circ.circ_src(c2, "c2") +
+           "\nwith tempfile.TemporaryDirectory() as t:\n    f=os.path.join(t,'c.bench')\n    c1.save_to_file(f); a=Circuit.from_bench_file(f)\n    c2.save_to_file(f); b=Circuit.from_bench_file(f)\n"
+           "bad = not (a==c1) or not (b==c2)\nprint(bad); sys.exit(1 if bad else 0)\n")
+    try:
+        with tempfile.TemporaryDirectory() as t:
+            f = os.path.join(t, "c.bench")
+            c1.save_to_file(f)
+            a = Circuit.from_bench_file(f)
+            c2.save_to_file(f)
+            b = Circuit.from_bench_file(f)
+            a.rename_gate(next(iter(a.gates)), "__renamed__") if a.gates else None  # a loaded circuit is the caller's to edit
+            b2 = Circuit.from_bench_file(f)
+        bad = None if (b == c2 and b2 == c2) else "second load of the same path does not return the file's current content"
+    except Exception as ex:  # noqa: BLE001
+        bad = f"{type(ex).__name__}: {ex}"
+    if bad:
+        p.violation("roundtrip:same-path-twice", f"{bad}: {circ.describe(c1)} then {circ.describe(c2)}", src)
+
+
 def family_unit(p, item, tier, seed):
     rnd = random.Random(item)
     fam = [(n, c) for n, c in circgen.feature_circuits() if expressible(c)] if item % 8 == 0 else []
     for i in range(25 if tier == "quick" else 60):
         c = circgen.random_circuit(rnd, rnd.randint(1, 4), rnd.randint(1, 8), max_arity=3, n_outputs=rnd.randint(1, 3), shuffle_storage=bool(i % 2))
         fam.append((f"seeded[{item}:{i}]", c))
+    prev = None
     for name, c in fam:
+        if prev is not None and expressible(prev) and expressible(c):
+            same_path_check(p, name, prev, c)
+        prev = c
         roundtrip_check(p, name, c)
         rc = relabel(c, rnd)
         roundtrip_check(p, name + "/relabelled", rc)
